@@ -25,7 +25,7 @@
     equivalence and [read_fuel_enough]: any fuel above [length fs] gives the same verdict, so
     [spec_valid = false] is never an artefact of the fuel in [unfold]. *)
 From Coq Require Import ZArith NArith List Bool Lia.
-From Exactly Require Import Model.Outcome Model.Suite Spec.C16 Proofs.SuiteReader.
+From Exactly Require Import Model.Outcome Model.Suite Spec.C16 Proofs.SuiteReader Proofs.SuiteRun.
 Import ListNotations.
 
 (** the suite files of a hierarchy, a suite before the suites it lists, those in listing order *)
@@ -435,4 +435,79 @@ Proof.
   change (spec_valid fs root) with (spec_valid_fuel (S (length fs)) fs root).
   apply eq_true_iff_eq.
   rewrite <- !read_accepts_iff_fuel, Hr. reflexivity.
+Qed.
+
+(** *** the processing order is the declarative one
+    [spec_processed] (Spec/C16.v) has the recursion shape of [unfold] and carries the case lists.
+    Again at equal fuel: whatever the reader accepts, its [listing] (= [processed], by
+    [processed_is_listing]) is what the specification computes from the file system alone. *)
+Fixpoint processed_list (u : fname -> option (list (fname * fname))) (l : list fname)
+  : option (list (fname * fname)) :=
+  match l with
+  | [] => Some []
+  | q :: l' =>
+      match u q, processed_list u l' with
+      | Some a, Some b => Some (a ++ b)
+      | _, _ => None
+      end
+  end.
+
+Lemma spec_processed_unfold fuel fs p :
+  spec_processed (S fuel) fs p =
+  match lookup fs p with
+  | Some (SGood ss cs) =>
+      match resolve_all ss, resolve_all cs with
+      | Some subs, Some cases =>
+          option_map (fun from_subs => from_subs ++ map (fun c => (p, c)) cases)
+                     (processed_list (spec_processed fuel fs) subs)
+      | _, _ => None
+      end
+  | _ => None
+  end.
+Proof.
+  cbn [spec_processed]. destruct (lookup fs p) as [[|ss cs]|]; try reflexivity.
+  destruct (resolve_all ss) as [subs|]; [|reflexivity].
+  destruct (resolve_all cs) as [c|]; [|reflexivity].
+  f_equal. induction subs as [|q subs IHs]; cbn [processed_list]; [reflexivity|].
+  rewrite IHs. reflexivity.
+Qed.
+
+Lemma read_listing fuel fs : forall v p h v',
+  read fuel fs v p = inr (h, v') -> spec_processed fuel fs p = Some (listing h).
+Proof.
+  induction fuel as [|fuel IH]; intros v p h v' E; [discriminate|].
+  rewrite read_unfold in E. rewrite spec_processed_unfold.
+  destruct (lookup fs p) as [[|ss cs]|]; try discriminate.
+  destruct (resolve_suites v ss) as [e|[subs v1]] eqn:R; [discriminate|].
+  rewrite resolve_cases_all in E.
+  destruct (resolve_all cs) as [case_paths|]; [|discriminate].
+  destruct (read_subs (read fuel fs) subs v1) as [e|[hs v2]] eqn:S; [discriminate|].
+  injection E as <- <-.
+  destruct (resolve_suites_sound _ _ _ _ R) as (Hall & _).
+  rewrite Hall. cbn [listing].
+  assert (Hsubs : forall qs w hs' w',
+             read_subs (read fuel fs) qs w = inr (hs', w') ->
+             processed_list (spec_processed fuel fs) qs = Some (flat_map listing hs')).
+  { induction qs as [|q qs IHqs]; cbn [read_subs processed_list]; intros w hs' w' E'.
+    - injection E' as <- <-. reflexivity.
+    - destruct (read fuel fs w q) as [e|[h1 w1]] eqn:Rq; [discriminate|].
+      destruct (read_subs (read fuel fs) qs w1) as [e|[hs1 w2]] eqn:Rs; [discriminate|].
+      injection E' as <- <-. rewrite (IH _ _ _ _ Rq), (IHqs _ _ _ Rs). reflexivity. }
+  rewrite (Hsubs _ _ _ _ S). reflexivity.
+Qed.
+
+Theorem processing_order_is_declarative fs root h :
+  read_root fs root = inr h -> spec_processed (S (length fs)) fs root = Some (processed h).
+Proof.
+  unfold read_root. intros E.
+  destruct (read (S (length fs)) fs [root] root) as [e|[h' v']] eqn:R; [discriminate|].
+  injection E as ->. rewrite processed_is_listing. exact (read_listing _ _ _ _ _ _ R).
+Qed.
+
+(** hence a declaratively valid hierarchy always has a declarative processing order *)
+Corollary valid_has_processing_order fs root :
+  spec_valid fs root = true -> exists l, spec_processed (S (length fs)) fs root = Some l.
+Proof.
+  intros V. apply reader_accepts_iff_valid in V as [h E].
+  exists (processed h). exact (processing_order_is_declarative _ _ _ E).
 Qed.
